@@ -219,7 +219,7 @@ def run(ctx):
                 then_ok = S.norm(ifs[0]["then"], env) in (("ctor", "Ok", ("tup",)), ("tup",))
                 els = S.norm(ifs[0]["else"], env) if ifs[0].get("else") else None
                 err_else = els is not None and S.contains(els, "Err") or (els is not None and els[0] == "ctor" and els[1] == "Err")
-                ok = c == want.get(cls) and then_ok and err_else
+                ok = S.verdict(c, want.get(cls)) if (then_ok and err_else) else False
                 d = "accepts iff %s; Ok on true: %s; Err otherwise: %s" % (S.show(c), then_ok, err_else)
             ctx.inst("C04.R3", "check_arity#%d[%s]" % (mi, cls), ok, d, H.loc(aa["body"]))
     can_accept_rule(ctx, "C04.R3", core)
@@ -229,7 +229,7 @@ def run(ctx):
     REQ = ("call", "count", ("call", "filter", ARGSF, ("closure", ("call", "is_required", ("cp", 0)))))
     wantg = ("if", ("call", "any", ARGSF, ("closure", ("call", "is_rest", ("cp", 0)))), ("ctor", "AtLeast", REQ),
              ("if", ("bin", "Eq", REQ, ("call", "len", ARGSF)), ("ctor", "Exact", REQ), ("ctor", "Between", REQ, ("call", "len", ARGSF))))
-    ctx.inst("C04.R3", "get_arity", t == wantg, "classification: %s" % S.show(t)[:300], H.loc(hga["body"]))
+    ctx.inst("C04.R3", "get_arity", S.verdict(t, wantg), "classification: %s" % S.show(t)[:300], H.loc(hga["body"]))
     # positional binding
     if len(param_loop) == 1:
         lp = param_loop[0]
@@ -314,4 +314,4 @@ def can_accept_rule(ctx, rid, core):
         env = S.Env(roles={nn: ("n",)})
         positional(aa["pat"], env)
         c = S.norm(aa["body"], env)
-        ctx.inst(rid, "can_accept[%s]" % cls, c == ARITY_WANT.get(cls), "accepts iff %s" % S.show(c), H.loc(aa["body"]))
+        ctx.inst(rid, "can_accept[%s]" % cls, S.verdict(c, ARITY_WANT.get(cls)), "accepts iff %s" % S.show(c), H.loc(aa["body"]))
